@@ -138,7 +138,7 @@ def make_cases(ctx, rng):
     for lang, toks in (("js", tok_js), ("ts", tok_js), ("py", tok_py), ("rs", tok_rs)):
         for ti, tok in enumerate(toks):
             if lang == "py":
-                body = "def tok_fn(a):\n    value = %s\n    if a in (\"x\", %s):\n        return value\n    return check(a, %s)\n" % (tok, tok, tok)
+                body = "TOKEN_LIMIT = %s\n\n\ndef tok_fn(a):\n    value = %s\n    if a in (\"x\", %s):\n        return value\n    return check(a, %s)\n" % (tok, tok, tok, tok)
             elif lang == "rs":
                 body = "fn tok_fn(a: i64) -> i64 {\n    let value = %s;\n    check(a, %s)\n}\n" % (tok, tok)
             else:
